@@ -6,6 +6,16 @@ From V Require Import U64 Extracted Bft BftNet Evidence.
 Import ListNotations.
 Local Open Scope N_scope.
 
+(* calls of one block: nested certificate-results transactions (refused as a whole on a known pair) and the chain's own certificate *)
+Record ox_case := mkOX { ox_calls : list (bool * list (N * list N)); (* own?, double signers *) ox_obs : list bool; ox_percent : N; ox_stakes : list N }.
+Fixpoint ox_run (calls : list (bool * list (N * list N))) (index : list (N * N)) (slashes : list N) : list bool * list N :=
+  match calls with
+  | [] => ([], slashes)
+  | (own, ds) :: r => match (if own then handle_own_double_signers ds index else handle_double_signers ds index []) with
+               | Some (index', out) => let '(oks, sl) := ox_run r index' (slashes ++ out) in (true :: oks, sl)
+               | None => let '(oks, sl) := ox_run r index slashes in (false :: oks, sl)
+               end
+  end.
 Record ix_case := mkIC { ix_calls : list (list (N * list N)); ix_obs : list bool; ix_percent : N; ix_stakes : list N }.
 (* run the calls: (index, slashes so far, per call success) *)
 Fixpoint ix_run (calls : list (list (N * list N))) (index : list (N * N)) (slashes : list N) : list bool * list N :=
@@ -25,6 +35,12 @@ Definition ix_agrees (c : ix_case) : bool :=
   forallb (fun e => let '(i, st) := e in
                     slash_n (length (filter (N.eqb (N.of_nat i)) sl)) (ix_percent c) 1000000 =? st)
           (combine (seq 0 (length (ix_stakes c))) (ix_stakes c)).
+Definition ox_agrees (c : ox_case) : bool :=
+  let '(oks, sl) := ox_run (ox_calls c) [] [] in
+  bools_eqb oks (ox_obs c) &&
+  forallb (fun e => let '(i, st) := e in
+                    slash_n (length (filter (N.eqb (N.of_nat i)) sl)) (ox_percent c) 1000000 =? st)
+          (combine (seq 0 (length (ox_stakes c))) (ox_stakes c)).
 Fixpoint idxi {A} (bad : A -> bool) (i : N) (l : list A) : list N :=
   match l with [] => [] | x :: r => if bad x then i :: idxi bad (i + 1) r else idxi bad (i + 1) r end.
 Definition ix_mismatches (cs : list ix_case) : list N := idxi (fun c => negb (ix_agrees c)) 0 cs.
@@ -35,3 +51,13 @@ Fixpoint has_dup (l : list (N * N)) : bool :=
 Definition ix_ok (c : ix_case) : bool :=
   negb (has_dup (flat_map (fun e : list (N * list N) * bool => if snd e then pairs_of (fst e) else []) (combine (ix_calls c) (ix_obs c)))).
 Definition ix_violations (cs : list ix_case) : list N := idxi (fun c => negb (ix_ok c)) 0 cs.
+
+Definition ox_mismatches (cs : list ox_case) : list N := idxi (fun c => negb (ox_agrees c)) 0 cs.
+(* the property on the observation alone: the chain's own certificate is never refused when its entries are well formed (every
+   entry names at least one height, no pair twice within the list) *)
+Definition ox_ok (c : ox_case) : bool :=
+  forallb (fun e : (bool * list (N * list N)) * bool =>
+             let '((own, ds), ok) := e in
+             negb own || ok || existsb (fun d => match snd d with [] => true | _ => false end) ds || has_dup (pairs_of ds))
+          (combine (ox_calls c) (ox_obs c)).
+Definition ox_violations (cs : list ox_case) : list N := idxi (fun c => negb (ox_ok c)) 0 cs.
